@@ -14,10 +14,12 @@
 -/
 import OllamaVerif.Properties.C11
 import OllamaVerif.Properties.C02
+import OllamaVerif.Properties.C02Chan
+import OllamaVerif.Properties.C01Bridge
 import OllamaVerif.Generated.C01_SchedFacts
 
 namespace OllamaVerif.Tie.C01
-open OllamaVerif.Sched OllamaVerif.Generated.C01
+open OllamaVerif.Sched OllamaVerif.SchedChan OllamaVerif.Generated.C01
 
 theorem tree_variant_good : treeVariant = Variant.good := by decide
 
@@ -42,12 +44,56 @@ theorem submit_never_blocks : enqueueNonBlocking = true := by decide
 /-- `pDrainUnloaded` / `pWaitUnload` consume an unload event and change nothing else (in particular not `loaded`) -/
 theorem wait_unload_is_pure : waitUnloadPure = true := by decide
 
+/-- "A runner is shut down at most once" (`closed_at_most_once`) holds in the model because `cExp` closes only a runner
+    that is not closed yet; that mirrors `unload()`: `Close()` only where `llama != nil`, then `llama = nil`, and no other
+    Close() site but unloadAllRunners (shutdown, outside the model).  Regenerated from the source. -/
+theorem close_is_guarded : unloadClosesOnce = true := by decide
+
+/-! ### the bounded model's parameters (Model/SchedChan.lean) -/
+
+/-- the tree takes loadedMu before refMu in the expired case and drains unloadedCh in the idle select -/
+theorem tree_cfg_repo : treeCfg = Cfg.repo := by decide
+
+/-- all four scheduler channels are made with capacity OLLAMA_MAX_QUEUE (`full`) -/
+theorem chan_caps_are_max_queue : chanCapsAreMaxQueue = true := by decide
+
+/-- the (channel, mutexes held) pairs of the bounded model's `profile`: expired events are sent holding nothing (10 ms
+    re-queuer), the runner's refMu (make-room block, finished case, timer callback, failed load) or loadedMu + refMu
+    (expireRunner); every other blocking send holds nothing -/
+def modelSendSites : List (String × List String) :=
+  [("expiredCh", []), ("expiredCh", ["loadedMu", "refMu"]), ("expiredCh", ["refMu"]),
+   ("finishedReqCh", []), ("pendingReqCh", []), ("unloadedCh", [])]
+
+/-- the tree sends on its channels holding exactly the mutexes the bounded model says -/
+theorem send_sites_match : sendSites = modelSendSites := by decide
+
+/-- rows of `modelSendSites` are what `profile` computes (sample states) -/
+theorem profile_expireRunner_idle :
+    profile Cfg.repo { (Sched.init 0 1 1) with loaded := [(0, 0)], nRunners := 1 } (.unloadBind 0) =
+      ([.loadedMu, .refMu 0], some .expired) := by decide
+theorem profile_cVram : profile Cfg.repo (Sched.init 0 1 1) .cVram = ([], some .unloaded) := by decide
+
+/-- the tree's lock order admits no hold-and-wait on loadedMu, in every reachable state of the bounded model -/
+theorem tree_no_hold_and_wait_on_loadedMu {v : Variant} {mr mq ds : Nat} {b : BState}
+    (h : ReachB v treeCfg (initB mr mq ds) b) :
+    ∀ p, p ∈ b.parked → p.wait = .lock .loadedMu → p.holds = [] := by
+  rw [tree_cfg_repo] at h
+  exact OllamaVerif.C02Chan.repo_no_hold_and_wait_on_loadedMu h
+
 /-- C01 for the tree's variant -/
 theorem tree_closed_runner_has_no_user {mr mq ds : Nat} {s : State}
     (h : Reach treeVariant (Sched.init mr mq ds) s) (r : Rid) (hr : r < s.nRunners)
     (hc : (s.runners r).closed = true) : ∀ q, ¬ OllamaVerif.C01.uses s q r := by
   rw [tree_variant_good] at h
   exact OllamaVerif.C01.closed_runner_has_no_user h r hr hc
+
+/-- C01, ghost-free, for the tree's variant: a request in progress holds a runner that is neither shut down nor unloaded -/
+theorem tree_in_progress_runner_is_loaded_and_open {mr mq ds : Nat} {s : State}
+    (h : Reach treeVariant (Sched.init mr mq ds) s) (q : ReqId) (r : Rid)
+    (hg : (s.reqs q).gotRunner = some r) (hd : (s.reqs q).done = false) :
+    (s.runners r).closed = false ∧ lookup s.loaded (s.runners r).model = some r := by
+  rw [tree_variant_good] at h
+  exact OllamaVerif.C01.in_progress_runner_is_loaded_and_open h q r hg hd
 
 /-- C11 for the tree's variant -/
 theorem tree_one_runner_per_model {mr mq ds : Nat} {s : State}
